@@ -3,9 +3,9 @@ import OjgVerif.Sen.WriterIndent
 /-! # C10 — the source text the writer model was written against (checked tie to sen/writer.go)
 
 `tools/extract/sen.go` prints, from the CURRENT sen/writer.go, the statement that selects the append functions in
-`MustSEN` / `MustWrite`, the bodies of the three indented append functions and the scalar cases of `appendSEN`
+`MustSEN` / `MustWrite`, the bodies of the three indented and the three tight append functions (sen/tight.go) and the scalar cases of `appendSEN`
 (`Gen.SenWriterFacts`, regenerated on every run). The theorems below compare them, line by line, with the text the
-model (`Sen.indentSep`, `Sen.indentVal`, `Sen.indentElems`, `Sen.indentMembers`, `Sen.senWrite`, Sen/WriterIndent.lean)
+model (`Sen.tightVal`, `Sen.tightElems`, `Sen.tightMembers`, Sen/Writer.lean; `Sen.indentSep`, `Sen.indentVal`, `Sen.indentElems`, `Sen.indentMembers`, `Sen.senWrite`, Sen/WriterIndent.lean)
 was written against: any edit of these functions — a changed clamp, separator, bracket, depth, member filter,
 dispatch condition — breaks one of them, whether or not the correspondence run finds an input for it. The constants
 `spaces` / `tabs` themselves are `Gen.Sen.spaces` / `Gen.Sen.tabs` (`Sen.spaces_shape`, `Sen.tabs_shape`, Props/C10Indent.lean).
@@ -85,6 +85,42 @@ theorem appendSortObject_src : Gen.SenWriterFacts.appendSortObjectSrc =
     "continue", "}", "}", "wr.buf = append(wr.buf, cs...)", "wr.buf = wr.appendString(wr.buf, k, !wr.HTMLUnsafe)",
     "wr.buf = append(wr.buf, \": \"...)", "wr.appendSEN(m, d2)", "}", "wr.buf = append(wr.buf, is...)",
     "wr.buf = append(wr.buf, '}')", "}"] := by
+  decide +kernel
+
+/-- **`tightArray`** (sen/tight.go): `[`, every element (depth 0) followed by one blank when it was a scalar (`wr.needSep`),
+the last blank overwritten by `]` (else `]` appended); the empty array is `[]` (model: `Sen.tightVal` / `Sen.tightElems`) -/
+theorem tightArray_src : Gen.SenWriterFacts.tightArraySrc =
+    [
+    "{", "if 0 < len(n) {", "space := false", "wr.buf = append(wr.buf, '[')", "for _, m := range n {",
+    "wr.appendSEN(m, 0)", "if wr.needSep {", "wr.buf = append(wr.buf, ' ')", "space = true", "} else {",
+    "space = false", "}", "}", "if space {", "wr.buf[len(wr.buf)-1] = ']'", "} else {",
+    "wr.buf = append(wr.buf, ']')", "}", "} else {", "wr.buf = append(wr.buf, \"[]\"...)", "}", "}"] := by
+  decide +kernel
+
+/-- **`tightObject`**: `{`, for every member that is not passed over (the same filter as in `appendObject`: `Sen.omitted`)
+the name, `:`, the value and one blank, the last blank overwritten by `}` (model: `Sen.tightMembers`) -/
+theorem tightObject_src : Gen.SenWriterFacts.tightObjectSrc =
+    [
+    "{", "comma := false", "wr.buf = append(wr.buf, '{')", "for k, m := range n {", "switch tm := m.(type) {",
+    "case nil:", "if wr.OmitNil {", "continue", "}", "case string:", "if wr.OmitEmpty && len(tm) == 0 {",
+    "continue", "}", "case map[string]any:", "if wr.OmitEmpty && len(tm) == 0 {", "continue", "}", "case []any:",
+    "if wr.OmitEmpty && len(tm) == 0 {", "continue", "}", "}",
+    "wr.buf = ojg.AppendSENString(wr.buf, k, !wr.HTMLUnsafe)", "wr.buf = append(wr.buf, ':')", "wr.appendSEN(m, 0)",
+    "wr.buf = append(wr.buf, ' ')", "comma = true", "}", "if comma {", "wr.buf[len(wr.buf)-1] = '}'", "} else {",
+    "wr.buf = append(wr.buf, '}')", "}", "}"] := by
+  decide +kernel
+
+/-- **`tightSortObject`**: `tightObject` over the sorted keys -/
+theorem tightSortObject_src : Gen.SenWriterFacts.tightSortObjectSrc =
+    [
+    "{", "comma := false", "wr.buf = append(wr.buf, '{')", "keys := make([]string, 0, len(n))",
+    "for k := range n {", "keys = append(keys, k)", "}", "sort.Strings(keys)", "for _, k := range keys {",
+    "m := n[k]", "switch tm := m.(type) {", "case nil:", "if wr.OmitNil {", "continue", "}", "case string:",
+    "if wr.OmitEmpty && len(tm) == 0 {", "continue", "}", "case map[string]any:",
+    "if wr.OmitEmpty && len(tm) == 0 {", "continue", "}", "case []any:", "if wr.OmitEmpty && len(tm) == 0 {",
+    "continue", "}", "}", "wr.buf = ojg.AppendSENString(wr.buf, k, !wr.HTMLUnsafe)", "wr.buf = append(wr.buf, ':')",
+    "wr.appendSEN(m, 0)", "wr.buf = append(wr.buf, ' ')", "comma = true", "}", "if comma {",
+    "wr.buf[len(wr.buf)-1] = '}'", "} else {", "wr.buf = append(wr.buf, '}')", "}", "}"] := by
   decide +kernel
 
 /-- **how `appendSEN` writes the scalars** (both layouts): `null`, `true` / `false`, `strconv.AppendInt(…, 10)`
